@@ -305,6 +305,8 @@ func (x *Exec) execSelect(st *State, fr *Frame, n *ssa.Select, b *ssa.BasicBlock
 		}
 	}
 	if !n.Blocking {
+		x.hookEvent(st, fr, "default", "", nil, nil, n.Pos())
+		x.hookAfter(st, fr, "default", "", nil, Val{}, n.Pos())
 		mk(st, fr, -1, False, nil)
 	}
 }
